@@ -1,4 +1,20 @@
 From Coq Require Import ZArith List.
-From PV Require Import C14.C14_Model C14.C14_Proofs.
-Theorem c14_placeholder : True. Proof. exact placeholder. Qed.
-Print Assumptions c14_placeholder.
+From PV Require Import C14.C14_Model C14.C14_Lib C14.C14_Proofs C14.C14_Seq.
+Theorem c14_ops_refine_flat_partial : forall ops m, wf_machine m -> Forall supported ops -> Forall args_ok ops -> exists m' obs, run m ops = Some (m', obs) /\ wf_machine m' /\ refines m ops obs m'. Proof. exact ops_refine_flat_partial. Qed.
+Print Assumptions c14_ops_refine_flat_partial.
+Theorem c14_step_refines : forall m o, wf_machine m -> supported o -> args_ok o -> exists m1 ob, step m o = Some (m1, ob) /\ wf_machine m1 /\ flat_spec o (m_own m) (mflat m) (mflat m1) (auxflat m1) ob. Proof. exact step_refines. Qed.
+Print Assumptions c14_step_refines.
+Theorem c14_sum_refines : forall st v, wf_view st v -> v_sum v = zlen (flatT st v). Proof. exact v_sum_refines. Qed.
+Print Assumptions c14_sum_refines.
+Theorem c14_shrink_to_refines : forall st v size v' r, wf_view st v -> (0 <= size)%Z -> v_shrink_to v size = (v', r) -> r = Z.min size (v_sum v) /\ flatT st v' = firstn (Z.to_nat r) (flatT st v) /\ wf_view st v' /\ (r = size \/ v' = v). Proof. exact v_shrink_to_refines. Qed.
+Print Assumptions c14_shrink_to_refines.
+Theorem c14_extract_front_refines : forall st v bytes, wf_view st v -> (0 <= bytes)%Z -> exists v' rem, do_extract_front cb_discard v bytes tt = XDone v' rem tt /\ (bytes - rem = Z.min bytes (v_sum v))%Z /\ flatT st v' = skipn (Z.to_nat (bytes - rem)) (flatT st v) /\ wf_view st v' /\ (zlen v' <= zlen v)%Z. Proof. exact xf_discard_refines. Qed.
+Print Assumptions c14_extract_front_refines.
+Theorem c14_extract_back_refines : forall st v bytes, wf_view st v -> (0 <= bytes)%Z -> exists v' rem, do_extract_back cb_discard v bytes tt = XDone v' rem tt /\ (bytes - rem = Z.min bytes (v_sum v))%Z /\ flatT st v' = firstn (Z.to_nat (v_sum v - (bytes - rem))) (flatT st v) /\ wf_view st v' /\ (zlen v' <= zlen v)%Z. Proof. exact xb_discard_refines. Qed.
+Print Assumptions c14_extract_back_refines.
+Theorem c14_extract_front_view_refines : forall st v bytes N, wf_view st v -> (0 <= bytes)%Z -> match do_extract_front (cb_view_front N) v bytes nil with | XOob => False | XDone v' rem a => (bytes - rem = Z.min bytes (v_sum v))%Z /\ flatT st a = firstn (Z.to_nat (bytes - rem)) (flatT st v) /\ flatT st v' = skipn (Z.to_nat (bytes - rem)) (flatT st v) /\ wf_view st v' /\ wf_view st a /\ (zlen v' <= zlen v)%Z | XNeg v' a => flatT st a ++ flatT st v' = flatT st v /\ wf_view st v' /\ wf_view st a /\ (zlen v' <= zlen v)%Z end. Proof. exact xf_view_refines. Qed.
+Print Assumptions c14_extract_front_view_refines.
+Theorem c14_extract_back_view_refines : forall st v bytes N, wf_view st v -> (0 <= bytes)%Z -> match do_extract_back (cb_view_back N) v bytes nil with | XOob => False | XDone v' rem a => (bytes - rem = Z.min bytes (v_sum v))%Z /\ flatT st a = skipn (Z.to_nat (v_sum v - (bytes - rem))) (flatT st v) /\ flatT st v' = firstn (Z.to_nat (v_sum v - (bytes - rem))) (flatT st v) /\ wf_view st v' /\ wf_view st a /\ (zlen v' <= zlen v)%Z | XNeg v' a => flatT st v' ++ flatT st a = flatT st v /\ wf_view st v' /\ wf_view st a /\ (zlen v' <= zlen v)%Z end. Proof. exact xb_view_refines. Qed.
+Print Assumptions c14_extract_back_view_refines.
+Theorem c14_no_oob_prefix_refuted : exists (st : store) (v : view) (n : Z), wf_view st v /\ (0 <= n)%Z /\ old_memcpy_to st v n = None /\ old_pipe_to_view st v nil n = None. Proof. exact no_oob_prefix_refuted. Qed.
+Print Assumptions c14_no_oob_prefix_refuted.
